@@ -1,4 +1,5 @@
 import IpaVerif.Model.LifecycleApp
+import IpaVerif.Generated.LifecycleApp
 import IpaVerif.Props.C18
 /-!
 # C18 at the `HelperApp` / request-handler level: the handler layer adds no behaviour
@@ -237,5 +238,88 @@ example : malformed ⟨.shard, .queryStatus, true, some 1, .proper .prepareQuery
 example : malformed ⟨.shard, .queryStatus, false, some 1, .extra .compareStatus .running, {}⟩ = false := by decide
 example : (handle ⟨0, true⟩ {} ⟨.mpc, .receiveQuery, false, none, .proper .queryConfig .running, ⟨[.accept, .accept], [], []⟩⟩)
     = ({ entry := some .awaitingInputs }, .ok .prepared) := by decide
+
+/-! ## The tables above are the arms of app.rs
+
+`IpaVerif.Generated.LifecycleApp.{mpcArms, shardArms}` are regenerated from the two
+`impl RequestHandler<…> for Inner` blocks of `ipa-core/src/app.rs` on every run. -/
+
+open IpaVerif.Generated.LifecycleApp in
+def routeName : Route → String
+  | .records => "Records"
+  | .receiveQuery => "ReceiveQuery"
+  | .prepareQuery => "PrepareQuery"
+  | .queryInput => "QueryInput"
+  | .queryStatus => "QueryStatus"
+  | .completeQuery => "CompleteQuery"
+  | .killQuery => "KillQuery"
+  | .metrics => "Metrics"
+
+def allRoutes : List Route :=
+  [.records, .receiveQuery, .prepareQuery, .queryInput, .queryStatus, .completeQuery, .killQuery, .metrics]
+
+/-- Rust `match`: first arm whose pattern is this variant or the catch-all. -/
+def lookupArm (arms : List Generated.LifecycleApp.Arm) (r : Route) : Option Generated.LifecycleApp.Arm :=
+  arms.find? (fun a => a.route == routeName r || a.route == "_")
+
+/-- The arm that finally handles the request (the shard handler's CompleteQuery arm hands over to the
+MPC handler). -/
+def effectiveArm (side : Side) (r : Route) : Option Generated.LifecycleApp.Arm :=
+  match side with
+  | .mpc => lookupArm Generated.LifecycleApp.mpcArms r
+  | .shard =>
+    match lookupArm Generated.LifecycleApp.shardArms r with
+    | some a => if a.call == "mpc" then lookupArm Generated.LifecycleApp.mpcArms r else some a
+    | none => none
+
+def opMethod : Op → String
+  | .newQuery _ _ => "new_query"
+  | .prepareHelper _ => "prepare_helper"
+  | .prepareShard => "prepare_shard"
+  | .receiveInputs => "receive_inputs"
+  | .queryStatus _ => "query_status"
+  | .shardStatus _ => "shard_status"
+  | .complete _ => "complete"
+  | .kill => "kill"
+  | .taskReturns _ _ => ""
+
+def ptypeName : Option PType → String
+  | some .queryConfig => "QueryConfig"
+  | some .prepareQuery => "PrepareQuery"
+  | some .compareStatus => "CompareStatusRequest"
+  | none => ""
+
+/-- a well-formed request for `(side, route)` -/
+def canonicalReq (side : Side) (route : Route) : Req :=
+  { side, route, hasId := true, origin := none,
+    params := match expects side route with
+      | some t => .proper t .running
+      | none => .other }
+
+/-- Does the source arm for `(side, route)` say what the spec tables / the model say? -/
+def armAgrees (side : Side) (route : Route) : Bool :=
+  match effectiveArm side route with
+  | none => false
+  | some a =>
+    (served side route == (a.call != "reject")) &&
+    (needsId side route == a.extId) &&
+    (ptypeName (expects side route) == a.into) &&
+    (match procOp (canonicalReq side route) with
+     | some (_, op) => a.call == opMethod op && a.propagates
+     | none => a.call == "reject" || a.call == "metrics")
+
+/-- **source_arms_match_spec_tables**: for both handlers and every `RouteId`, the arm of app.rs (as
+regenerated by the translator) serves the route iff `served` says so, takes the id through
+`ext_query_id` iff `needsId`, deserializes exactly the type `expects` names, calls exactly the
+`Processor` method of `procOp` and lets its result leave through `?` / `HelperResponse::from`; a
+missing id is `BadRequest`; the shard handler hands exactly CompleteQuery over to the MPC handler. -/
+theorem source_arms_match_spec_tables :
+    (∀ side, ∀ route ∈ allRoutes, armAgrees side route = true) ∧
+    (∀ route, route ∈ allRoutes) ∧
+    Generated.LifecycleApp.extQueryIdErr = "BadRequest" ∧
+    (∀ route ∈ allRoutes, ((lookupArm Generated.LifecycleApp.shardArms route).map (·.call) == some "mpc") = (route == .completeQuery)) := by
+  refine ⟨?_, ?_, by decide, by decide⟩
+  · intro side; cases side <;> decide
+  · intro route; cases route <;> decide
 
 end IpaVerif.C18
